@@ -94,10 +94,10 @@ def semisep {α} (p : P α) : P (List α) := do
   ws; semicolon
   pure v
 
-/-- `semisep_oneplus(x) = v:(x() ++ (_ semicolon() _)) semicolon() {v}` -/
+/-- `semisep_oneplus(x) = v:(x() ++ (_ semicolon() _)) _ semicolon() {v}` -/
 def semisepOneplus {α} (p : P α) : P (List α) := do
   let v ← sepBy1 p (do ws; semicolon; ws)
-  semicolon
+  ws; semicolon
   pure v
 
 /-- `commasep_oneplus(x) = v:(x() ++ (_ comma() _)) comma() {v}` -/
